@@ -525,13 +525,20 @@ func WriteMatrix(dir string) []string {
 		if err != nil {
 			continue
 		}
-		p := filepath.Join(dir, d.name+".json")
-		if os.WriteFile(p, b, 0o644) == nil {
-			out = append(out, p)
+		// each document twice: the second copy (name ending in _b) is generated in feature configuration b
+		for _, suffix := range []string{"", "_b"} {
+			p := filepath.Join(dir, d.name+suffix+".json")
+			if os.WriteFile(p, b, 0o644) == nil {
+				out = append(out, p)
+			}
 		}
 	}
 	return out
 }
+
+// matrixConfigB: the second feature configuration of the matrix documents: the client validates requests, the server
+// validates responses, calls take request options, security sources may be re-entered, no OpenTelemetry.
+const matrixConfigB = matrixConfig + "  features:\n    enable: [\"client/request/validation\", \"server/response/validation\", \"client/request/options\", \"client/security/reentrant\"]\n    disable: [\"ogen/otel\"]\n"
 
 // matrixConfig is the generator configuration of the matrix documents: the corpus configuration plus aliases that
 // make structured-syntax JSON media types readable as JSON.
